@@ -235,6 +235,21 @@ def rule_presets(ctx):
                 e = f.call_expr(t, bi)
                 if not defaulted_params(f, e[2][-1]):
                     bad.append(short(p))
+        # ... and the two players' infoset tables in their own order
+        swapped = []
+        n_t = 0
+        for bi, t, p in f.calls():
+            if short(p).startswith('solve_'):
+                e = f.call_expr(t, bi)
+                arrs = [strip_refs(a) for a in e[2] if strip_refs(a)[0] == 'agg' and strip_refs(a)[1] == 'array' and len(strip_refs(a)[2]) == 2 and 'player_infosets' in facts.show(a)]
+                for a in arrs:
+                    n_t += 1
+                    tg = [q.tags(x) for x in a[2]]
+                    if tg != [{0}, {1}]:
+                        swapped.append('%s: positions %s' % (short(p), [sorted(x) for x in tg]))
+        if n_t:
+            ctx.verdict(not swapped, rule, rule + ':player-tables-in-order', 'every solver gets [player one\'s infosets, player two\'s infosets] in that order', f.where(0),
+                        '%d table arguments; out of order: %s' % (n_t, swapped), breaks='one solver variant updates player one with player two\'s table: wrong / malformed strategies for games whose tables differ in shape')
         ctx.verdict(not bad and n == 6, rule, rule + ':none-means-default', 'omitted parameters mean RegretParams::default(): every solver receives `params` with None replaced by the default', f.where(0),
                     '%d solver calls; not receiving params-or-default: %s' % (n, bad), breaks='omitting the parameters selects something else than the documented default')
 
@@ -339,6 +354,32 @@ def rule_branch_tables(ctx):
     rule = 'C08.table-regret_match'
     f = ctx.fn('lib', 'solve::data::RegretParams::regret_match', rule)
     if f is not None:
+        # softmax fallback: every exponent is (regret - max regret) * weight — the shift is the *maximum* (the weights are
+        # exp of something <= 0 for a positive weight; shifting by the minimum overflows to inf / NaN for spread regrets)
+        shifts = []
+        for g_ in [f] + lib.closures_of(f):
+            for bi, t, e in q.calls_named(g_, 'exp'):
+                a0 = strip_refs(q.resolve_captures(lib, g_, e[2][0])) if g_.is_closure else strip_refs(e[2][0])
+                sub = q.find_sub(a0, lambda x: x[0] == 'bin' and x[1] == 'Sub')
+                if sub is None:
+                    continue
+                m = strip_refs(sub[3])
+                if q.is_call(m, 'unwrap') or q.is_call(m, 'expect'):
+                    m = strip_refs(m[2][0])
+                kind = None
+                if m[0] == 'call' and short(m[1]) in ('reduce', 'fold') and m[2] and strip_refs(m[2][-1])[0] == 'fn':
+                    kind = short(strip_refs(m[2][-1])[1])
+                elif m[0] == 'call' and short(m[1]) in ('max_by', 'min_by', 'max', 'min'):
+                    kind = short(m[1]).split('_')[0]
+                elif m[0] == 'var' and q.running_max(g_, m[1]) is not None:
+                    kind = 'max'
+                shifts.append((g_.where(bi), kind))
+        decided = [k for _, k in shifts if k is not None]
+        if shifts and decided:
+            ctx.verdict(all(k == 'max' for k in decided), rule, rule + ':softmax-shift-is-max', 'the softmax fallback exponentiates (regret - MAX regret) * weight', shifts[0][0],
+                        'shift subtracted under exp: %s' % sorted(set(decided)), breaks='exp overflows for spread regrets: NaN / all-zero strategies')
+        elif shifts:
+            ctx.anchor_lost(rule, 'regret_match: the shift of the softmax fallback')
         is_np = lambda a: a[0] == 'field' and a[2] == 'no_positive'
         tab = eq_table(f, is_np)
         norm_guard = None
@@ -480,6 +521,30 @@ def rule_regret_update(ctx):
             rec = [(bi, t, e) for bi, t, e in q.calls_named(f, 'call')]
             adds = [(bi, t, e) for bi, t, e in q.calls_named(f, 'add') if 'solve::vanilla::Add' in (t['callee'].get('def', '') + e[1])]
             okadd = False
+            via_closure = False
+            if not adds:
+                # the `Add` trait replaced by an `add: impl Fn(R, f64)` parameter: the accumulation is a call of that
+                # parameter with (regret handle, value); what the closure does is checked at the callers
+                for bi, t, e in rec:
+                    callee_ = strip_refs(e[2][0]) if e[2] else ('other',)
+                    tup = strip_refs(e[2][1]) if len(e[2]) > 1 else ('other',)
+                    if callee_[0] == 'param' and tup[0] == 'agg' and tup[1] == 'tuple' and len(tup[2]) == 2 and 'f64' in str(f.locals[callee_[1]]['ty']):
+                        p2 = e4.try_poly(tup[2][1])
+                        if p2 is not None and len(p2) == 1 and list(p2.values()) == [1.0] and ('val', mult) in list(p2)[0]:
+                            adds.append((bi, t, ('call', e[1], (tup[2][0], tup[2][1]), e[3])))
+                            via_closure = callee_[1]
+                if via_closure:
+                    sign_ok = []
+                    for g_ in lib.non_test_fns():
+                        for bj, tj, ej in q.calls_named(g_, 'recurse_player'):
+                            if via_closure - 1 < len(ej[2]):
+                                cf_, _ = q.closure_of(lib, ej[2][via_closure - 1])
+                                if cf_ is not None:
+                                    ctx.touch(cf_)
+                                    plus = any(short(pp) == 'fetch_add' for _, _, pp in cf_.calls()) or any(strip_refs(rhs_)[0] == 'bin' and strip_refs(rhs_)[1] == 'Add' and norm(strip_refs(rhs_)[2]) == norm(pl_) for _, _, pl_, rhs_ in q.stores(cf_))
+                                    sign_ok.append(plus)
+                    if sign_ok:
+                        ctx.verdict(all(sign_ok), 'C08.add-trait-sign', 'C08.add-trait-sign:closures', 'the accumulation passed to recurse_player adds (fetch_add / +=)', f.where(0), 'closures adding: %s' % sign_ok)
             for bi, t, e in adds:
                 p = e4.try_poly(e[2][1])
                 if p is not None and len(p) == 1 and list(p.values()) == [1.0]:
@@ -487,7 +552,7 @@ def rule_regret_update(ctx):
                     okadd = len(atoms) == 2 and ('val', mult) in atoms and any(a[0] == 'val' and (a[1][0] == 'var' or q.is_call(a[1], 'call')) for a in atoms if a != ('val', mult))
                     # the target is the per-action cumulative regret item
                     tgt = strip_refs(e[2][0])
-                    okadd = okadd and q.find_sub(tgt, lambda s: s[0] == 'param' and s[1] == 5) is not None
+                    okadd = okadd and q.find_sub(tgt, lambda s: s[0] == 'param' and (s[1] == 5 or (via_closure and 'Iterator' in str(f.locals[s[1]]['ty']) or via_closure and 'impl' in str(f.locals[s[1]]['ty'])))) is not None
             # every action is accumulated: inside the loop over the actions the update is not conditional on data
             for bi, t, e in adds:
                 lp = f.loop_of(bi)
